@@ -606,6 +606,12 @@ func (s *Service) toProto(need func(string)) *descriptorpb.ServiceDescriptorProt
 	}
 	for _, m := range s.Methods {
 		mp := &descriptorpb.MethodDescriptorProto{Name: proto.String(m.Name), InputType: proto.String(m.Input), OutputType: proto.String(m.Output)}
+		if m.ClientStreaming {
+			mp.ClientStreaming = proto.Bool(true)
+		}
+		if m.ServerStreaming {
+			mp.ServerStreaming = proto.Bool(true)
+		}
 		if m.Config != nil || len(m.Headers) > 0 {
 			mp.Options = &descriptorpb.MethodOptions{}
 		}
